@@ -23,6 +23,8 @@ RAISE = "raise"
 
 KINDS = ["list", "astr", "ustr", "vector", "bytes", "range", "wstream", "mapped", "rrange", "drange", "wadv", "radv", "madv"]
 UCH = ["é", "a", "€", "b", "ñ"]
+LONG_N = 300
+LONG_KINDS = ("list", "vector", "range", "rrange", "drange", "wstream", "mapped", "wadv")
 
 
 def seq(kind, n):
@@ -126,7 +128,7 @@ def in_word(v):
 
 
 def bounds(tier):
-    return {"kinds": KINDS, "max_len": 3 if tier == "tiny" else 5 if tier == "quick" else 7, "index_window": "[-len-3, len+3]",
+    return {"kinds": KINDS, "max_len": 3 if tier == "tiny" else 5 if tier == "quick" else 7, "index_window": "[-len-3, len+3]", "long_sequences": "length %d for %s: both ends and +-255..257" % (LONG_N, ", ".join(LONG_KINDS)),
             "extreme_indices": [str(b) for b in BIGS], "non_integer_indices": NONINT}
 
 
@@ -140,10 +142,17 @@ def bigrep(i):
 
 
 def cases(tier, shard, nshards):
+    for c in _cases(tier, shard, nshards):
+        if c.meta.get("n") == LONG_N:
+            c.opts = dict(c.opts, cap=LONG_N + 50)      # lazily built results are dumped in full
+        yield c
+
+
+def _cases(tier, shard, nshards):
     maxn = 3 if tier == "tiny" else 5 if tier == "quick" else 7
     cnt = 0
     for kind in KINDS:
-        for n in range(0, maxn + 1):
+        for n in list(range(0, maxn + 1)) + ([LONG_N] if kind in LONG_KINDS else []):
             src, E = seq(kind, n)
             L = len(E)
             cnt += 1
@@ -151,6 +160,9 @@ def cases(tier, shard, nshards):
                 continue
             base = {"kind": kind, "n": n}
             window = list(range(-L - 3, L + 4))
+            if n == LONG_N:
+                # a long sequence: positions at both ends and around 255 / 256 / 257 from either end
+                window = sorted({-L - 1, -L, -L + 1, -257, -256, -255, -2, -1, 0, 1, 2, 254, 255, 256, 257, L - 1, L, L + 1})
             # ---- reads by index
             for i in window + BIGS:
                 forms = [("idx", "%s[%s]" % (src, lit_int(i))), ("bangbang", "%s !! %s" % (src, lit_int(i))),
